@@ -25,7 +25,7 @@ Proof. split; [exact hdr_bounded_init|exact hdr_bounded_empty]. Qed.
 Print Assumptions C11_rtu_header_bounded.
 
 (* the bound is specific to the request table: on the response table it is refuted
-   (C11_rtu_fifo_refuted: 16 MB extent; C06_rtu_mei_refuted: KeyError for ever) *)
+   (C11_rtu_fifo_extent_refuted: 64 KB extent; C06_rtu_mei_refuted: KeyError for ever) *)
 
 (* RTU, once synchronised (empty buffer; header {} or the initial dict): valid frames arriving in
    ANY grouping (one per read, several per read, cut anywhere) are all delivered, those of units
@@ -45,14 +45,14 @@ Theorem C11_rtu_bad_crc_resyncs : forall cfg st st2, rtu_check cfg st = (st2, Ok
 Proof. exact rtu_check_false_resets. Qed.
 Print Assumptions C11_rtu_bad_crc_resyncs.
 
-(* binary, partial: from any state with an empty buffer, delimiter-free valid frames, one per
-   read, are each delivered by their own read (any number of them) *)
-Theorem C11_binary_after_sync : forall cfg (frames : list (N * bytes)) st,
+(* binary, partial: from any state with an empty buffer, delimiter-free valid frames arriving any
+   number per read are all delivered by the read that brings them (finding
+   F-C11-binary-several-per-read, status fixed) *)
+Theorem C11_binary_after_sync : forall cfg (reads : list (list (N * bytes))) st,
   b_buf st = [] ->
-  Forall (fun f => valid_bframe cfg (fst f) (snd f)) frames ->
-  bin_feed_dels cfg st (map (fun f => spec_adu_binary (fst f) (snd f)) frames) =
-    (map (fun f => (snd f, Z.of_N (fst f))) frames, map (fun _ => FOk) frames).
-Proof. exact bin_one_per_read. Qed.
+  Forall (fun f => valid_bframe cfg (fst f) (snd f)) (concat reads) ->
+  bin_feed_dels cfg st (map bstream reads) = (bmsgs (concat reads), map (fun _ => FOk) reads).
+Proof. exact bin_frames_per_read. Qed.
 Print Assumptions C11_binary_after_sync.
 
 (* binary, bare framer: refuted — "{}" makes struct.error escape for ever
@@ -77,15 +77,25 @@ Theorem C11_rtu_undecodable_refuted :
 Proof. exact rtu_undecodable_deaf_witness. Qed.
 Print Assumptions C11_rtu_undecodable_refuted.
 
-(* RTU, responses: refuted — the Read FIFO Queue size oracle can demand 16 MB
-   (finding F-C11-rtu-fifo-size) *)
-Theorem C11_rtu_fifo_refuted :
+(* RTU, responses: FIXED in /repo (finding F-C11-rtu-fifo-size): the Read FIFO Queue byte count is a
+   16-bit value: garbage "01 18 01 00" asks for 262 bytes (it was 65 542), after which the CRC fails,
+   the buffer is dropped and the following valid frames are delivered *)
+Theorem C11_rtu_fifo_fixed :
+  let f := spec_adu_rtu 1 (3 :: 250 :: repeat 7 250) in
+  frame_size (lookup_rule client_decoder 24) [1; 24; 1; 0] = Ok 262%Z /\
+  length (deliveries (rtu_feed cfg_client rtu_init [[1; 24; 1; 0]; f; f; f; f])) = 2%nat.
+Proof. exact rtu_fifo_size_fixed_witness. Qed.
+Print Assumptions C11_rtu_fifo_fixed.
+
+(* RTU, responses: still refuted - with a high byte of 0xFF the oracle asks for 65 541 bytes, far more
+   than two maximum frames (finding F-C11-rtu-fifo-extent: a FIFO response never exceeds 70 bytes) *)
+Theorem C11_rtu_fifo_extent_refuted :
   let f := spec_adu_rtu 1 [3; 2; 0; 7] in
-  frame_size (lookup_rule client_decoder 24) [1; 24; 255; 255] = Ok 16711941%Z /\
+  frame_size (lookup_rule client_decoder 24) [1; 24; 255; 255] = Ok 65541%Z /\
   deliveries (rtu_feed cfg_client rtu_init [[1; 24; 255; 255]; f; f; f; f]) = [] /\
   length (r_buf (fst (fst (rtu_feed cfg_client rtu_init [[1; 24; 255; 255]; f; f; f; f])))) = 32%nat.
-Proof. exact rtu_fifo_size_witness. Qed.
-Print Assumptions C11_rtu_fifo_refuted.
+Proof. exact rtu_fifo_extent_witness. Qed.
+Print Assumptions C11_rtu_fifo_extent_refuted.
 
 (* formerly refuted, now FIXED in /repo (finding F-C11-rtu-backlog-several-per-read, status fixed):
    several frames per read are all consumed by that read *)
